@@ -461,6 +461,79 @@ def generate(unit, canary=False):
     return "".join(out_lines), manifest, fn_spans, canary_lines
 
 
+RE_MISSING = re.compile(
+    r"no (?:method|function or associated item|associated function or constant|associated item|variant, associated function, or constant) named `(\w+)` found for "
+    r"(?:enum|struct|unit struct) `([\w:]+?)(?:<[^`]*>)?`")
+
+
+def _split_params(text):
+    m = R.mask(text)
+    parts, depth, last = [], 0, 0
+    for i, ch in enumerate(m):
+        if ch in "([{<":
+            depth += 1
+        elif ch in ")]}>":
+            depth -= 1
+        elif ch == "," and depth == 0:
+            parts.append(text[last:i])
+            last = i + 1
+    parts.append(text[last:])
+    return [p.strip() for p in parts if p.strip()]
+
+
+def auto_helper(file, type_name, fn_name):
+    """A helper function that the extracted code calls but the unit does not list (typically
+    introduced by a refactoring): copied verbatim (R1-R5) into an `impl` block together with a
+    `spec fn <name>__spec` holding the SAME body text and `ensures r == <name>__spec(..)`, so that a
+    pure helper is transparent to its callers. Returns the text, or None if it cannot be located."""
+    src, masked = _load(file)
+    for (k, start, header, body, end) in R.items_in(masked, 0, len(src)):
+        if k != "impl":
+            continue
+        hn = R.header_name("impl", header)
+        # inherent impl of the type (optionally generic)
+        if not re.match(r"impl(<[^>]*>)?%s(<.*>)?$" % re.escape(type_name), hn.replace(" ", "")):
+            continue
+        for (k2, s2, h2, b2, e2) in R.items_in(masked, body + 1, end - 1):
+            if k2 == "fn" and R.header_name("fn", h2) == fn_name:
+                item = src[s2:e2]
+                applied = set()
+                blk = Block(file, ["impl " + type_name, "fn " + fn_name], 0)
+                txt = strip_comments(item)
+                txt = strip_attrs(txt, applied)
+                txt = strip_vis(txt, applied)
+                txt = re.sub(r"^(\s*)((?:const|unsafe)\s+)*fn\b", r"\1fn", txt)
+                txt = rewrite_macros(txt, applied)
+                m2 = R.mask(txt)
+                po = m2.index("(")
+                pc = _paren_end(m2, po)
+                params = txt[po + 1:pc]
+                bo = m2.index("{", pc)
+                ret = txt[pc + 1:bo]
+                rm = re.search(r"->\s*(.+?)\s*$", ret.strip(), re.S)
+                if not rm:
+                    return None
+                ret_ty = rm.group(1)
+                body_txt = txt[bo:]
+                names = []
+                for prm in _split_params(params):
+                    if re.match(r"(&\s*)?(mut\s+)?self$", prm):
+                        names.append("self")
+                    else:
+                        names.append(re.sub(r"^mut\s+", "", prm.split(":")[0].strip()))
+                spec_params = re.sub(r"\bmut\s+", "", params)
+                call = ("self.%s__spec(%s)" % (fn_name, ", ".join(n for n in names if n != "self"))) if "self" in names \
+                    else ("Self::%s__spec(%s)" % (fn_name, ", ".join(names)))
+                impl_hdr = src[start:body].strip()
+                impl_hdr = re.sub(r"^pub(\([^)]*\))?\s+", "", impl_hdr)
+                return ("\n// auto-extracted helper (not listed in the unit): %s >> impl %s >> fn %s\n%s {\n"
+                        "    spec fn %s__spec(%s) -> %s %s\n\n"
+                        "    fn %s(%s) -> (r: %s)\n        ensures r == %s,\n    %s\n}\n") % (
+                    file, type_name, fn_name, impl_hdr, fn_name, spec_params, ret_ty, body_txt,
+                    fn_name, params, ret_ty, call, body_txt)
+    return None
+
+
 RE_ERR = re.compile(r"^(error|warning)(?:\[\w+\])?: (.*)$")
 RE_LOC = re.compile(r"^\s*--> (.*?):(\d+):(\d+)")
 
@@ -527,6 +600,40 @@ def run_unit(unit, timeout=600, with_canary=True):
     res["functions"] = [m["item"] for m in manifest if " >> fn " in m["item"] or m["item"].split(" >> ")[-1].startswith("fn ")]
     res["assumptions"] = ["verus unit %s: %s" % (unit, a) for a in scan_assumptions(text)]
     rc, out, err, wall = _run_verus(path, timeout)
+    # helper functions introduced next to the extracted code (refactorings): pull them in
+    # automatically, transparent via an auto-generated spec twin (see auto_helper)
+    helpers_added = []
+    for _round in range(3):
+        missing = set(RE_MISSING.findall(err or ""))
+        if rc in (0, None) or not missing:
+            break
+        files = sorted(set(m_["item"].split(" >> ")[0] for m_ in manifest))
+        extra = ""
+        for fn_name, ty in sorted(missing):
+            ty = ty.split("::")[-1]
+            for f in files:
+                h = None
+                try:
+                    h = auto_helper(f, ty, fn_name)
+                except Exception:
+                    h = None
+                if h:
+                    extra += h
+                    helpers_added.append("%s >> impl %s >> fn %s" % (f, ty, fn_name))
+                    break
+        if not extra:
+            break
+        marker = "} // verus!"
+        if marker not in text:
+            break
+        text = text.replace(marker, extra + "\n" + marker, 1)
+        with open(path, "w") as f:
+            f.write(text)
+        rc, out, err, wall2 = _run_verus(path, timeout)
+        wall += wall2
+    if helpers_added:
+        res["auto_helpers"] = helpers_added
+        res["assumptions"].append("verus unit %s: auto-extracted helper(s) with spec twin: %s" % (unit, ", ".join(helpers_added)))
     res["time_s"] = round(wall, 2)
     res["raw"] = (out or "")[-3000:] + "\n" + (err or "")[-6000:]
     if rc is None:
